@@ -265,9 +265,12 @@ _WRITE_CACHE = {}
 def attr_write_summary(tree, rel, clsname):
     ''' method name -> set of self attributes it may write (transitively via
     self.m() calls), over the MRO of the class and its repo subclasses. '''
-    key = (id(tree), rel, clsname)
-    if key in _WRITE_CACHE:
-        return _WRITE_CACHE[key]
+    # cached on the tree itself (ids of collected trees can be reused by later trees)
+    cache = tree.__dict__.setdefault('_write_cache', {})
+    key = (rel, clsname)
+    if key in cache:
+        return cache[key]
+    _WRITE_CACHE = cache
     classes = list(tree.mro(rel, clsname)) + list(tree.subclasses(rel, clsname))
     direct = {}
     callees = {}
